@@ -64,7 +64,7 @@ func vpC01Cell(ti int) {
 	if f != 0 {
 		vpSetField(x, f, shape, 'a')
 	}
-	cell := vpTypeNames[ti] + "." + fields[f].Name + "/" + string([]byte{'0' + byte(shape)})
+	cell := vpTypeNames[ti] + "." + fields[f].Name + "/" + string([]byte{'0' + byte(shape/10), '0' + byte(shape%10)})
 	b, err := vpMarshalItem(x)
 	vpAssert("encode/no-error/"+cell, err == nil)
 	vpAssert("encode/non-empty/"+cell, len(b) > 0)
